@@ -520,8 +520,20 @@ def convertToFloat {F : Type} [FloatLit F] (s : Str) : R F :=
   else if s = cs!"-INF" then .ok FloatLit.negInf
   else ofOpt (FloatLit.parse s)
 
-/-- `char::is_alphabetic`, ASCII part (non-ASCII text is outside the model). -/
-def isAlphabetic (c : Char) : Bool := c.isAlpha
+/-- Unicode `Alphabetic` beyond ASCII, transcribed for the common scripts (Latin-1 …
+Latin Extended / IPA, Greek, Cyrillic, Hiragana, Katakana, CJK unified ideographs, Hangul
+syllables).  Code points outside these ranges are taken as non-alphabetic (assumption of the
+model; `std`'s full table is not transcribed). -/
+def uniAlphaRanges : List (Nat × Nat) :=
+  [(0xAA, 0xAA), (0xB5, 0xB5), (0xBA, 0xBA), (0xC0, 0xD6), (0xD8, 0xF6), (0xF8, 0x2C1),
+   (0x370, 0x373), (0x376, 0x377), (0x37A, 0x37D), (0x37F, 0x37F), (0x386, 0x386),
+   (0x388, 0x38A), (0x38C, 0x38C), (0x38E, 0x3A1), (0x3A3, 0x3F5), (0x3F7, 0x481),
+   (0x48A, 0x52F), (0x3041, 0x3096), (0x30A1, 0x30FA), (0x4E00, 0x9FFF), (0xAC00, 0xD7A3)]
+
+def uniAlpha (n : Nat) : Bool := uniAlphaRanges.any fun r => r.1 ≤ n && n ≤ r.2
+
+/-- `char::is_alphabetic` -/
+def isAlphabetic (c : Char) : Bool := c.isAlpha || uniAlpha c.toNat
 
 /-- `text.chars().next().unwrap().is_alphabetic()` -/
 def firstIsAlphabetic (s : Str) : R Bool :=
